@@ -127,10 +127,30 @@ def build_problem(pw: dict):
     raise HarnessError(f"unknown problem kind {kind}")
 
 
-def build_solver(world: dict, ckpt: dict | None, ckdir: str | None):
+def build_solver(world: dict, ckpt: dict | None, ckdir: str | None, ctor: str = "kwargs"):
+    """ctor='kwargs': Solver(problem, **kw)   (what the README shows)
+    ctor='config_object': Solver(problem=p, config=cfg) where cfg was derived with
+    dataclasses.replace() from the configuration object of an earlier solver of the same class
+    built on a *different* problem of the same size - the 'one config object reused across
+    runs' usage (a parameter sweep); the earlier (decoy) solver never checkpoints."""
     cls = _load_solvers()[world["solver"]["cls"]]
     kw = dict(world["solver"]["kw"])
     kw.setdefault("verbose", 0)
+    if ctor == "config_object":
+        import dataclasses as _dc
+
+        pw = world["problem"]
+        if pw["kind"] == "tab":
+            decoy_pw = dict(pw, seed=int(pw.get("seed", 0)) + 1, cfg=True)
+            decoy_cfg = cls.Config(**dict(kw))
+            cls(problem=build_problem(decoy_pw), config=decoy_cfg)  # leaves its problem config in decoy_cfg
+            extra = {}
+            if ckpt is not None and ckpt.get("f", 0) > 0:
+                extra = dict(checkpoint_dir=ckdir, checkpoint_frequency=ckpt["f"], max_checkpoints=ckpt["m"], enable_async_checkpointing=ckpt["async"])
+            elif ckpt is not None and ckdir is not None:
+                extra = dict(checkpoint_dir=ckdir, checkpoint_frequency=0, max_checkpoints=ckpt["m"], enable_async_checkpointing=ckpt["async"])
+            cfg = _dc.replace(decoy_cfg, **extra)
+            return cls(problem=build_problem(pw), config=cfg)
     if ckpt is not None and ckpt.get("f", 0) > 0:
         kw.update(
             checkpoint_dir=ckdir,
@@ -720,7 +740,7 @@ def execute(plan: dict, root: str, resume: Run | None = None, only: int | None =
         try:
             try:
                 if route == "construct":
-                    solver = build_solver(world, eff, dst)
+                    solver = build_solver(world, eff, dst, lt.get("ctor", "kwargs"))
                 elif route == "restore":
                     cls = _load_solvers()[world["solver"]["cls"]]
                     kwargs = dict(over)
@@ -823,11 +843,33 @@ def execute(plan: dict, root: str, resume: Run | None = None, only: int | None =
                         }
                         call["state"] = digest_state(capture(solver))
                         ctx.at_seam(("solve_return", ctx.call_idx))
+                    elif op["op"] == "peek_load":
+                        # another solver object looks at the directory while a write may be pending
+                        # (load_checkpoint builds its own read manager on it); it must not disturb it
+                        peek = {"after_call": ctx.call_idx, "inflight": ctx.inflight}
+                        if not os.path.isdir(dst) or eff["f"] == 0:
+                            continue  # (load_checkpoint would create the directory it is asked to read)
+                        try:
+                            twin = build_solver(world, None, None)
+                            twin.load_checkpoint(dst)
+                            peek["loaded"] = int(twin.iteration)
+                        except (SimCrash, HarnessError):
+                            raise
+                        except Exception as e:
+                            peek["exc"] = _classify_exc(e)
+                        h.setdefault("peeks", []).append(peek)
                     elif op["op"] == "wait":
-                        ctx.force_writer()
                         mgr = getattr(solver, "checkpoint_manager", None)
-                        if mgr is not None:
-                            mgr.wait_until_finished()
+                        try:
+                            ctx.force_writer()
+                            if mgr is not None:
+                                mgr.wait_until_finished()
+                        except (SimCrash, HarnessError):
+                            raise
+                        except Exception as e:  # a failed background write surfaces here
+                            h.setdefault("wait_errors", []).append({"after_call": ctx.call_idx, "exc": _classify_exc(e), "msg": str(e)[:200]})
+                            if ctx.inflight is not None:
+                                ctx.inflight = None
                         h.setdefault("quiesce", []).append(
                             {"after_call": ctx.call_idx, "listing": listing(dst), "src_listing": listing(src) if src != dst else None}
                         )
